@@ -30,7 +30,7 @@ StateName == IF S.kind = "connector" THEN S.cs ELSE S.st
 TRet == /\ IsEv("ret") /\ inop /\ S.out = <<>>
         /\ Ln.v = S.r /\ Ln.st = StateName
         /\ Ln.pg = (IF S.st = "connected" THEN S.tx ELSE 0)
-        /\ Ln.pe = (IF S.st = "connected" /\ S.shut THEN 1 ELSE 0)
+        /\ Ln.pe = (IF S.st = "connected" /\ S.peof THEN 1 ELSE 0)
         /\ inop' = FALSE /\ UNCHANGED vars
 TNext == \/ TBegin \/ TReset \/ TEvent \/ TRet
          \/ Call("init") /\ InitOp
